@@ -438,7 +438,7 @@ fn verify_replay_fresh(path: &std::path::Path, f: &Finding) -> Result<(), String
     let out = std::process::Command::new(exe).arg("replay").arg(path).output().map_err(|e| e.to_string())?;
     let stdout = String::from_utf8_lossy(&out.stdout).to_string();
     let want = format!("REPRODUCED signature={}", f.signature);
-    if stdout.lines().any(|l| l.trim() == want) {
+    if stdout.lines().any(|l| l == want || l.trim() == want.trim()) {
         Ok(())
     } else {
         Err(format!("exit={:?}; stdout tail: {}", out.status.code(), stdout.lines().rev().take(6).collect::<Vec<_>>().join(" | ")))
